@@ -124,7 +124,7 @@ Definition wapply (s : wstate) (o : op) (r : res) : option wstate :=
   | CloseFd, _ => Some (mkw (wfs s) None)
   | Remove p, RUnit => match wfs s p with Some NDir | None => None | Some _ => Some (mkw (upd (wfs s) p None) (wfd s)) end
   | Rmtree p, RUnit => Some (mkw (rm_tree (wfs s) p) (wfd s))
-  | Rmtree _, _ => None
+  | Rmtree p, _ => match wfs s p with Some NDir => None | _ => Some s end      (* rmtree refuses what is not a directory: nothing changed *)
   | Move src dst, RUnit =>
       match wfs s src, wfs s dst with
       | Some _, None => if under src dst || under dst src || str_eqb dst [] then None else Some (mkw (mv_tree (wfs s) src dst) (wfd s))
@@ -133,7 +133,7 @@ Definition wapply (s : wstate) (o : op) (r : res) : option wstate :=
   | Makedirs p _, RUnit =>
       let w' := add_dirs (wfs s) (ancestors_or_self p) in
       match w' p with Some NDir => Some (mkw w' (wfd s)) | _ => None end
-  | Makedirs _ _, _ => None
+  | Makedirs p _, _ => match wfs s p with Some _ => Some s | None => None end   (* EEXIST: nothing changed *)
   | _, _ => Some s
   end.
 Fixpoint wapply_all (s : wstate) (t : trace) : option wstate :=
